@@ -375,3 +375,26 @@ package mhprimary
 //@   fresh f
 //@   ensures @created-empty err == nil ==> f != nil && f.$open && f.$size == 0 && f.$name == name
 //@   ensures err != nil ==> f == nil
+
+// applyFreeList (C10, C13; legacy upgrade): every freelist entry read from the hand-over file
+// is applied to the legacy primary at the entry's offset, a record that is already marked is
+// left alone, the mark is the record's own size with the deleted bit set, and the hand-over file
+// is removed only after the whole file was read (or was empty).
+//@ func applyFreeList(ctx context.Context, freeList *freelist.FreeList, filePath string) (err error)  property C10 C13
+//@   requires freeList != nil
+//@   modifies heap("freelist.FreeList"), fp(IO), heap("bufio.")
+//@   ghost var gpath string = ""
+//@   ghost var gread int = 0
+//@   ghost var gdone bool = false
+//@   ghost at after call freelist.FreeList.ToGC#0: gpath = $r0
+//@   ghost at after call freelist.Iterator.Next#0: gread = gread + ite($r1 == nil, 1, 0)
+//@   ghost at after call freelist.Iterator.Next#0: gdone = ($r1 != nil)
+// input invariant: the hand-over file holds whole 12-byte entries, so the number of entries read
+// successfully never exceeds its size divided by 12
+//@   assume at after call freelist.Iterator.Next#0: @format-freelist-whole-entries $r1 == nil ==> gread <= total
+//@   assert at before call os.OpenFile#0: @reads-handover-file $a0 == gpath
+//@   assert at before call os.OpenFile#1: @marks-legacy-primary $a0 == filePath
+//@   assert at before call (*os.File).ReadAt#0: @reads-at-entry-offset $a0 == primaryFile && $a2 == offset && len($a1) == 4
+//@   assert at before call (*os.File).WriteAt#0: @marks-at-entry-offset $a0 == primaryFile && $a2 == offset && len($a1) == 4 && recSize < 2147483648 && le32(bytes($a1), 0) == recSize + 2147483648
+//@   assert at before call os.Remove#0: @C13-handover-file-removed-only-after-reading-it-all $a0 == gpath && (flSize == 0 || gdone)
+//@   loop 0 invariant flIter != nil && primaryFile != nil && fresh(primaryFile) && flFile != nil && fresh(flFile) && len(sizeBuf) == 4 && fresh(sizeBuf) && flPath == gpath && 0 <= count && count <= gread && gread <= total && total >= 0 && flSize != 0 && !gdone
